@@ -58,11 +58,15 @@ pub(crate) mod verif_probe {
         /// a call arrived after the failed one
         pub called_after_fail: bool,
         pub failed: bool,
+        /// running hash of (call kind, area) of the calls received; only the first `log_upto` calls are
+        /// logged when log_upto != 0 (used to compare a faulty run with the prefix of the fault-free run)
+        pub log: u32,
+        pub log_upto: u32,
     }
 
     impl<C: PixelColor> ProbeState<C> {
         pub fn new(q: Point, bbox: Rectangle, allowed: Rectangle) -> Self {
-            Self { q, bbox, allowed, last: None, writes: 0, escaped: false, calls: 0, fail_at: 0, called_after_fail: false, failed: false }
+            Self { q, bbox, allowed, last: None, writes: 0, escaped: false, calls: 0, fail_at: 0, called_after_fail: false, failed: false, log: 0, log_upto: 0 }
         }
         pub fn touch(&mut self, p: Point, c: C) {
             if !sp::contains(&self.allowed, p) {
@@ -80,10 +84,17 @@ pub(crate) mod verif_probe {
         }
         /// call bookkeeping; returns Err(call number) when this call is the one that must fail
         pub fn enter(&mut self) -> Result<(), u32> {
+            self.enter_call(0, &Rectangle::new(Point::new(0, 0), Size::new(0, 0)))
+        }
+        pub fn enter_call(&mut self, kind: u32, area: &Rectangle) -> Result<(), u32> {
             if self.failed {
                 self.called_after_fail = true;
             }
             self.calls += 1;
+            if self.log_upto == 0 || self.calls <= self.log_upto {
+                let h = kind ^ (area.top_left.x as u32) ^ ((area.top_left.y as u32) << 8) ^ (area.size.width << 16) ^ (area.size.height << 24);
+                self.log = (self.log << 5).wrapping_sub(self.log) ^ h;
+            }
             if self.fail_at != 0 && self.calls == self.fail_at {
                 self.failed = true;
                 return Err(self.calls);
@@ -144,7 +155,7 @@ pub(crate) mod verif_probe {
         where
             I: IntoIterator<Item = C>,
         {
-            self.0.enter()?;
+            self.0.enter_call(2, area)?;
             self.0.area_in(area);
             if sp::contains(area, self.0.q) {
                 let k = sp::row_major_index(area, self.0.q) as usize;
@@ -156,7 +167,7 @@ pub(crate) mod verif_probe {
             Ok(())
         }
         fn fill_solid(&mut self, area: &Rectangle, color: C) -> Result<(), Self::Error> {
-            self.0.enter()?;
+            self.0.enter_call(3, area)?;
             self.0.area_in(area);
             if sp::contains(area, self.0.q) {
                 let q = self.0.q;
@@ -165,7 +176,8 @@ pub(crate) mod verif_probe {
             Ok(())
         }
         fn clear(&mut self, color: C) -> Result<(), Self::Error> {
-            self.0.enter()?;
+            let bb = self.0.bbox;
+            self.0.enter_call(4, &bb)?;
             if sp::contains(&self.0.bbox, self.0.q) {
                 let q = self.0.q;
                 self.0.touch(q, color);
